@@ -13,7 +13,8 @@ static pev SV[64]; static int NSV;                 /* state alphabet */
 static const uint16_t SEQS[4] = {1, 0x0102, 0xFFFF, 0x0100};   /* 0x0100: low byte zero */
 static const uint8_t PAUSES[3] = {0, 1, 255};
 static const uint8_t PAIRS[3][2] = {{ST_S0, ST_PEER}, {ST_OWN, ST_S1}, {ST_S1, ST_BC}};
-static size_t fit(void) { return (W.iface[0].mtu - 34) / 14; }
+static size_t eff_mtu(void) { size_t m = W.iface[0].mtu; return W.env.mtu_alt ? (m == 1500 ? 9216 : 1500) : m; }      /* what the MTU getter answers now */
+static size_t fit(void) { return (eff_mtu() - 34) / 14; }
 
 #define EMIT_BASE 1000
 static int emit_code(int fam, int seqi, int n, int idx) { return EMIT_BASE + (((fam * 4 + seqi) * 1024 + n) * 8192 + idx); }
@@ -54,7 +55,7 @@ static void build_list(int fam, int n, int idx) {
 static void s_name(int ev, char *buf, size_t cap) {
     if (ev < EMIT_BASE) { pev_name(&SV[ev], buf, cap); return; }
     int fam, seqi, n, idx; emit_decode(ev, &fam, &seqi, &n, &idx);
-    static const char *fn[] = {"tuple", "all-Probe", "all-Train", "alternating", "position-sweep", "over-declared", "sequence-number-sweep", "pause-and-address-sweep", "not-addressed-to-us"};
+    static const char *fn[] = {"tuple", "all-Probe", "all-Train", "alternating", "position-sweep", "over-declared", "sequence-number-sweep", "pause-and-address-sweep", "not-addressed-to-us", "mtu-changed-between-two-emits"};
     if (fam == 6) { snprintf(buf, cap, "Emit(from active mapper,seq=0x%04x,family=%s,n=1)", seq_of(ev), fn[fam]); return; }
     snprintf(buf, cap, "Emit(from active mapper,seq=0x%04x,family=%s,n=%d,idx=%d)", SEQS[seqi], fn[fam], n, idx);
 }
@@ -103,8 +104,18 @@ static void oracle_emit(int code, uint16_t seq) {
  * another station / zero, Ethernet destination ours or broadcast) - whatever the responder transmits for it carries ITS OWN
  * address as real source */
 static const uint8_t F8_RDST[3] = {ST_BC, ST_PEER, ST_ZERO};
+/* family 9: the interface's MTU is changed between two Emits of one session (jumbo frames switched on / off, no Reset): a
+ * first one-descriptor Emit, the change, then an Emit with as many descriptors as the NEW MTU allows (idx 0) or an
+ * over-declared count (idx 1), judged against the new MTU */
+static void do_emit(int code);
+static void do_emit9(int idx) {
+    do_emit(emit_code(0, 0, 1, 0));
+    W.env.mtu_alt ^= 1u;
+    do_emit(idx == 0 ? emit_code(1, 1, (int)fit(), 0) : emit_code(5, 1, (int)fit(), 4));
+}
 static void do_emit(int code) {
     int fam, seqi, n, idx; emit_decode(code, &fam, &seqi, &n, &idx);
+    if (fam == 9) { do_emit9(idx); return; }
     build_list(fam == 8 ? 0 : fam, fam == 8 ? 1 : n, fam == 8 ? 0 : idx);
     static uint8_t buf[VF_MAXMTU + 64];
     const uint8_t *edst = W.iface[0].mac, *rdst = W.iface[0].mac;
@@ -150,6 +161,7 @@ static void run_family_here(void) {
         for (int k = 0; k < 3; k++) { if (ns[k] > 200 && !vf_thorough() && k == 0) continue; for (int i = 0; i < ns[k]; i++) RUN(emit_code(4, seqi, ns[k], i)); }
         for (int o = 0; o < 5; o++) RUN(emit_code(5, seqi, F, o));
     }
+    if (heavy) for (int k = 0; k < 2; k++) RUN(emit_code(9, 1, 1, k));      /* MTU changed between two Emits */
     if (heavy) for (int k = 0; k < 6; k++) RUN(emit_code(8, 1, 1, k));      /* real destination broadcast / another station / zero x Ethernet destination ours / broadcast */
     if (heavy) for (int pr = 0; pr < 9; pr++) for (int pz = 0; pz < 256; pz++) RUN(emit_code(7, 1, pr, pz));      /* every pause value x 9 address pairs */
     if (heavy) for (int v = 1; v < 65536; v++) RUN(emit_code(6, 0, v / 8192, v % 8192));      /* every non-zero sequence number, once per (mapper, apparent address) class */
